@@ -403,3 +403,118 @@ func CopyDir(src, dst string) error {
 	}
 	return nil
 }
+
+// ---------------------------------------------------------------------------------------
+// Package-level probes (programs under wcmd/ that link /repo packages and run generators and
+// naive oracles in-process; see internal/probe).
+
+type probeLine struct {
+	T      string              `json:"t"`
+	Key    string              `json:"key"`
+	What   string              `json:"what"`
+	Case   interface{}         `json:"case"`
+	V      interface{}         `json:"v"`
+	Evals  int                 `json:"evals"`
+	Hashes string              `json:"hashes"`
+	Counts map[string]int      `json:"counts"`
+	Sets   map[string][]string `json:"sets"`
+}
+
+// RunProbe builds wcmd/<target> in the given flavour from /repo's current tree, runs it with
+// --tier/--seed/--flavour plus extra args under a wall-clock watchdog, and folds its report into the
+// evidence.  If the process dies without a summary (sanitizer report, fatal error), crashKey != ""
+// turns that into a violation whose witness is the case on disk; otherwise it is a run error.
+func (c *Ctx) RunProbe(target, flavour string, extra []string, watchdog time.Duration, crashKey string) error {
+	bin, err := c.Build(target, flavour)
+	if err != nil {
+		return err
+	}
+	cur := filepath.Join(c.Scratch, fmt.Sprintf("cur-%s-%s.txt", target, flavour))
+	args := append([]string{"--tier", c.Tier, "--seed", fmt.Sprint(c.Seed), "--flavour", flavour}, extra...)
+	cmd := exec.Command(bin, args...)
+	cmd.Env = append(os.Environ(), "PROBE_CURFILE="+cur, "GORACE=halt_on_error=1", "ASAN_OPTIONS=detect_leaks=0:abort_on_error=0")
+	cmd.Dir = c.Scratch
+	errFile := filepath.Join(c.Scratch, fmt.Sprintf("stderr-%s-%s.txt", target, flavour))
+	ef, _ := os.Create(errFile)
+	cmd.Stderr = ef
+	op, _ := cmd.StdoutPipe()
+	if err := cmd.Start(); err != nil {
+		return err
+	}
+	done := make(chan struct{})
+	timedOut := false
+	go func() {
+		select {
+		case <-done:
+		case <-time.After(watchdog):
+			timedOut = true
+			cmd.Process.Kill()
+		}
+	}()
+	gotSum := false
+	sc := bufio.NewScanner(op)
+	sc.Buffer(make([]byte, 1<<20), 1<<28)
+	for sc.Scan() {
+		var l probeLine
+		if json.Unmarshal(sc.Bytes(), &l) != nil {
+			continue
+		}
+		switch l.T {
+		case "viol":
+			c.Violation(l.Key, "["+flavourName(flavour)+"] "+l.What, l.Case)
+		case "sample":
+			c.Sample(l.V)
+		case "sum":
+			gotSum = true
+			c.mu.Lock()
+			c.evals += l.Evals
+			for i := 0; i+16 <= len(l.Hashes); i += 16 {
+				c.distinct[l.Hashes[i:i+16]] = struct{}{}
+			}
+			for k, v := range l.Counts {
+				c.counters[k+"@"+flavourName(flavour)] += v
+			}
+			for k, ms := range l.Sets {
+				m := c.sets[k]
+				if m == nil {
+					m = map[string]struct{}{}
+					c.sets[k] = m
+				}
+				for _, s := range ms {
+					m[s] = struct{}{}
+				}
+			}
+			c.mu.Unlock()
+		}
+	}
+	werr := cmd.Wait()
+	close(done)
+	ef.Close()
+	if timedOut {
+		c.Inconclusive(fmt.Sprintf("probe %s (%s) exceeded its %v watchdog", target, flavourName(flavour), watchdog))
+		return nil
+	}
+	if !gotSum || werr != nil {
+		stderr, _ := os.ReadFile(errFile)
+		curCase, _ := os.ReadFile(cur)
+		fatal := FatalInStderr(string(stderr))
+		if fatal == "" {
+			fatal = Trunc(string(stderr), 1500)
+		}
+		if crashKey != "" {
+			c.Violation(crashKey, fmt.Sprintf("[%s] probe process died (%v) while executing case %s: %s", flavourName(flavour), werr, Trunc(string(curCase), 300), Trunc(fatal, 800)),
+				map[string]interface{}{"case": string(curCase), "stderr": Trunc(fatal, 3000), "flavour": flavour})
+			return nil
+		}
+		return fmt.Errorf("probe %s (%s) died: %v; case on disk: %s; stderr: %s", target, flavourName(flavour), werr, Trunc(string(curCase), 300), Trunc(fatal, 1500))
+	}
+	c.Count("probe_runs_"+flavourName(flavour), 1)
+	return nil
+}
+
+func flavourName(f string) string {
+	if f == "" {
+		return "plain"
+	}
+	return f
+}
